@@ -204,8 +204,26 @@ func drawOps(t *rapid.T, maxW, maxH int, withResize bool) []op {
 	n := rapid.IntRange(1, 45).Draw(t, "nops")
 	var ops []op
 	for i := 0; i < n; i++ {
-		k := rapid.IntRange(0, 29).Draw(t, "op")
+		k := rapid.IntRange(0, 31).Draw(t, "op")
 		switch {
+		case k >= 30:
+			// a run of mostly wide runes stored in adjacent columns (each
+			// hides the next), ending at the right edge: overlapping wide
+			// runes are where "which cell is visible" gets decided
+			x0 := maxW - rapid.IntRange(1, 5).Draw(t, "runfromright")
+			y := rapid.IntRange(0, maxH-1).Draw(t, "runy")
+			if rapid.Bool().Draw(t, "runbottom") {
+				y = maxH - 1
+			}
+			st := drawStyle(t)
+			nr := rapid.IntRange(2, 5).Draw(t, "runlen")
+			for j := 0; j < nr; j++ {
+				r := rune(rapid.IntRange(0x4e00, 0x4e40).Draw(t, "runcjk"))
+				if rapid.IntRange(0, 3).Draw(t, "runnarrow") == 0 {
+					r = rune(rapid.IntRange(0x41, 0x5a).Draw(t, "runascii"))
+				}
+				ops = append(ops, op{Kind: "set", X: x0 + j, Y: y, R: r, St: st})
+			}
 		case k < 12:
 			o := op{Kind: "set", X: rapid.IntRange(-2, maxW+1).Draw(t, "x"), Y: rapid.IntRange(-2, maxH+1).Draw(t, "y"), R: drawRune(t), St: drawStyle(t)}
 			if rapid.IntRange(0, 3).Draw(t, "edge") == 0 {
@@ -292,6 +310,7 @@ type dw struct {
 	opPen        *vt.Pen
 	inCall       string
 	allowAppIO   bool
+	exempt       map[string]bool
 }
 
 func charsetOf(locale string) encoding.Encoding {
